@@ -97,7 +97,7 @@ pub fn builder(ts: &J) -> Result<SchemaBuilder, String> {
                             let id = parent_id(&ctx, &root_id).ok_or_else(|| Error::new("harness: resolver called without a parent object"))?;
                             let w = if fname == "id" && req.world.get(&id).and_then(|o| o.get("vals")).and_then(|v| v.get("id")).is_none() { json!({"k": "str", "v": id}) } else { req.lookup(&id, &fname) };
                             let call = req.bump(&format!("{id}.{fname}"));
-                            req.event(json!({"ev": "start", "obj": id, "field": fname, "path": path_of(ctx.ctx), "call": call, "view": {"sel": []}}));
+                            req.event(json!({"ev": "start", "obj": id, "field": fname, "path": path_of(ctx.ctx), "call": call, "view": crate::fam::views(ctx.ctx)}));
                             if let Some(g) = w.get("gate").and_then(|g| g.as_u64()) { if g != 0 { let _ = req.gate(g).await; } }
                             req.event(json!({"ev": "finish", "obj": id, "field": fname, "path": path_of(ctx.ctx), "call": call}));
                             field_value(&w, abstract_named)
